@@ -145,7 +145,9 @@ pub fn generate(seed: u64, prop: &str, thorough: bool) -> Plan {
         let k = rng.weighted(&w);
         let step = match k {
             0 => Step::H(HOp::Append {
-                topic: topic(&mut rng),
+                // (a few topics that do not fit the store's index key: 16 + topic + 1 + 16 bytes
+                // must stay within 65535)
+                topic: if prop == "C13" && rng.chance(4) { rng.pick(&["<long:65503>", "<long:66000>", "<long:65502>"]).to_string() } else { topic(&mut rng) },
                 ctx: match rng.weighted(&[35, 55, 10]) {
                     0 => CtxParam::Absent,
                     1 => CtxParam::Ref(gen_ctx(&mut rng)),
@@ -700,6 +702,18 @@ impl Exec4 {
         let what = format!("op{} {}", i, short(op));
         match op {
             HOp::Append { topic, ctx, ttl, meta, body, chunked, chunk, frag, cut, newconn } => {
+                let long_topic: Option<usize> = topic.strip_prefix("<long:").and_then(|t| t.strip_suffix('>')).and_then(|n| n.parse().ok());
+                let expanded;
+                let topic: &String = match long_topic {
+                    Some(n) => {
+                        expanded = "t".repeat(n);
+                        self.ex.w.probe("http:oversize-topic");
+                        &expanded
+                    }
+                    None => topic,
+                };
+                // the index key (context, topic, delimiter, id) must fit 65535 bytes
+                let topic_too_long = topic.len() > 65535 - 33;
                 let (ctxq, ctxid, ctx_bad) = self.ctx_param(ctx);
                 let (ttl_raw, ttl_val) = ttl_pool(*ttl);
                 let mut q: Vec<String> = Vec::new();
@@ -718,7 +732,10 @@ impl Exec4 {
                         (Some(b64.encode(v.to_string()).into_bytes()), Some(v), false, false)
                     }
                     MetaSpec::BadBase64 => (Some(b"!!!not-base64!!!".to_vec()), None, true, false),
-                    MetaSpec::BadUtf8 => (Some(b64.encode([0xffu8, 0xfe, 0xfd]).into_bytes()), None, true, false),
+                    // invalid UTF-8 on its own, or inside a JSON string literal of an otherwise
+                    // well-formed object (a lossy decoder would let the second kind through)
+                    MetaSpec::BadUtf8 if i % 2 == 0 => (Some(b64.encode([0xffu8, 0xfe, 0xfd]).into_bytes()), None, true, false),
+                    MetaSpec::BadUtf8 => (Some(b64.encode(b"{\"who\":\"b\xe9b\xe9\"}").into_bytes()), None, true, false),
                     MetaSpec::BadJson => (Some(b64.encode("{not json").into_bytes()), None, true, false),
                     MetaSpec::NonAscii => (Some(vec![b'e', 0xe9, 0xff, b'x']), None, true, true),
                 };
@@ -760,7 +777,16 @@ impl Exec4 {
                     }
                     Outcome::Resp(r) => {
                         let route_reject = ctx_bad || ttl_val.is_none();
-                        if route_reject || meta_bad {
+                        if long_topic.is_some() && (r.status == 414 || r.status == 431) {
+                            // the request target itself is beyond what the HTTP layer accepts
+                            self.check_store_vs_model(&format!("{} [rejected with {}]", what, r.status)).map_err(|e| reclass(e, "http/effect-of-failed-request"))?;
+                        } else if topic_too_long {
+                            // (like an append the store refuses for its context: an error status)
+                            if r.status < 400 {
+                                return violation("http/status", format!("{}: status {} for a topic of {} bytes, which cannot be stored", what, r.status, topic.len()));
+                            }
+                            self.check_store_vs_model(&format!("{} [rejected with {}]", what, r.status)).map_err(|e| reclass(e, "http/effect-of-failed-request"))?;
+                        } else if route_reject || meta_bad {
                             self.expect_status(&what, &r, &[400], "http/status")?;
                             self.ex.w.probe("http:400");
                             self.check_store_vs_model(&format!("{} [rejected with {}]", what, r.status)).map_err(|e| reclass(e, "http/effect-of-failed-request"))?;
